@@ -43,7 +43,7 @@ class C07(Check):
     ASSUMPTIONS = ['timestamps are non-decreasing per key; timeouts are >= 0 (a zero timeout makes every item open a new window, as the statement says)',
                    'closing_mapper returns a bool']
     ANCHORS = ['rxsci/data/time_split.py', 'rxsci/operators/multiplex.py']
-    REQUIRED_TAGS = ['consumer-runs-a-pipeline-built-with-the-same-operator-object', 'top', 'group', 'active', 'inactive', 'no-timeout', 'closing', 'include', 'exclude', 'datetime', 'equal-timestamps', 'gap=timeout', 'day-scale', 'zero-timeout', 'aware-datetimes-mixed-offsets', 'no-timestamps-closing-mapper-only', 'closing-mapper-says-no-with-None-or-empty-string', 'include-flag-given-as-a-non-bool'] + ['operator-object-used-in-two-pipelines'] + ['history-fed-more-than-the-judged-stream'] + PRELUDE_TAGS + ['prelude:overlap']
+    REQUIRED_TAGS = ['consumer-runs-a-pipeline-built-with-the-same-operator-object', 'top', 'group', 'active', 'inactive', 'no-timeout', 'closing', 'include', 'exclude', 'datetime', 'equal-timestamps', 'gap=timeout', 'day-scale', 'zero-timeout', 'aware-datetimes-mixed-offsets', 'no-timestamps-closing-mapper-only', 'closing-mapper-says-no-with-None-or-empty-string', 'include-flag-given-as-a-non-bool', 'sub-second-timeouts'] + ['operator-object-used-in-two-pipelines'] + ['history-fed-more-than-the-judged-stream'] + PRELUDE_TAGS + ['prelude:overlap']
     REQUIRED_OBSERVED = ['child_lifetimes_checked', 'parent_lifetimes_checked', 'empty_windows_dropped']
 
     def generate(self, rng, tier, shard, nshards):
@@ -96,6 +96,16 @@ class C07(Check):
                 cfg['time'] = 'tnone'
             if cfg['closing'] and rng.random() < 0.15:
                 cfg['include_as'] = rng.choice(['numpy', 'int'])
+            if rng.random() < 0.12 and cfg['time'] in ('id', 'dt'):
+                # sub-second timeouts on timestamps with a fractional second, gaps of exactly a timeout among them
+                a_ms, b_ms = rng.choice([None, 200, 150, 400, 1200, 2]), rng.choice([None, 200, 150, 2, 20])
+                step = rng.choice([1, 2, 20, 50])
+                t_, its = rng.randint(0, 999), []
+                for _ in range(rng.choice([4, 12, 30, 60])):
+                    t_ += rng.choice([0, step, step, a_ms or step, b_ms or step, (a_ms or 1) - 1, (b_ms or 1) + 1])
+                    its.append(t_)
+                cfg.update(active=a_ms, inactive=b_ms, time='dtms')
+                items = its
             yield {'cfg': cfg, 'parent': name, 'parent_node': windows.PARENTS[name](rng), 'items': items}
 
     def evaluate(self, case):
@@ -116,6 +126,8 @@ class C07(Check):
             out.tags.append('closing-mapper-says-no-with-None-or-empty-string')
         if cfg.get('include_as') and cfg.get('closing'):
             out.tags.append('include-flag-given-as-a-non-bool')
+        if cfg.get('time') == 'dtms':
+            out.tags += ['datetime', 'sub-second-timeouts']
         if cfg.get('time') == 'tnone':
             out.tags.append('no-timestamps-closing-mapper-only')
         if cfg.get('time') == 'dtz':
